@@ -10,32 +10,10 @@ package main
 import (
 	"go/token"
 	"go/types"
-	"os"
 	"strings"
 
 	"golang.org/x/tools/go/ssa"
 )
-
-// debugDumpA6 prints the SSA of the functions whose name contains one of the comma-separated
-// substrings of $VERIF_DUMP_A6 (development aid, inert otherwise).
-func debugDumpA6(p *Prog) {
-	want := os.Getenv("VERIF_DUMP_A6")
-	if want == "" {
-		return
-	}
-	for _, pk := range p.Pkgs {
-		if !strings.HasPrefix(pk.PkgPath, modPrefix) {
-			continue
-		}
-		for _, fn := range p.AllSrcFuncs(pk) {
-			for _, w := range strings.Split(want, ",") {
-				if strings.Contains(fn.String(), w) {
-					fn.WriteTo(os.Stdout)
-				}
-			}
-		}
-	}
-}
 
 // ---------- substitution of a callee's parameters by the caller's argument values ----------
 
